@@ -26,15 +26,16 @@ def run(tier, seed, only=None):
 
     # ---------------- switches and the total
     s = K.surface(2, 3, True)
-    for (cls, mod, opt, out) in (("ViscousDrag", "viscous_drag", "with_viscous", "CDv"), ("WaveDrag", "wave_drag", "with_wave", "CDw")):
-        sc = SymComp(A + mod, cls, surface=dict(s, **{opt: False}), **{opt: False})
+    for (cls, mod, opt, out, off) in [(c, m, o, u, f) for (c, m, o, u) in (("ViscousDrag", "viscous_drag", "with_viscous", "CDv"), ("WaveDrag", "wave_drag", "with_wave", "CDw"))
+                                      for f in (False, np.False_)]:
+        sc = SymComp(A + mod, cls, surface=dict(s, **{opt: off}), **{opt: False})
         rep.encode(type(sc.comp))
         ins = sc.inputs()
         paths = sc.sym(ins)
         obs = [oblig.Ob("%s off path %d" % (cls, i), lhs=p.result["outputs"][out].ravel()[0], rhs=ZERO, assume=p.conds,
                         meta={"family": "%s is exactly zero when its option is off" % out}) for i, p in enumerate(paths)]
         f = real_out(sc, ins, out)
-        run_obligations(rep, "%s option off" % cls, obs, timeout, family=lambda ob, cls=cls: "%s: %s" % (cls, ob.meta["family"]),
+        run_obligations(rep, "%s option off%s" % (cls, "" if off is False else " (numpy flag)"), obs, timeout, family=lambda ob, cls=cls: "%s: %s" % (cls, ob.meta["family"]),
                         replay=lambda ob, env, f=f: (f(env) != 0.0, "output %.6g with the option off" % f(env)))
     sc = SymComp(A + "total_drag", "TotalDrag", surface=s)
     rep.encode(type(sc.comp))
@@ -50,7 +51,8 @@ def run(tier, seed, only=None):
         for symm in (True, False):
             if not symm and ny % 2 == 0:
                 continue
-            sw = K.surface(2, ny, symm, with_wave=True)
+            # (one size with the switch given as a NumPy boolean: "on" is any true value)
+            sw = K.surface(2, ny, symm, with_wave=np.True_ if ny == 3 else True)
             sc = SymComp(A + "wave_drag", "WaveDrag", surface=sw, with_wave=True)
             ins = sc.inputs()
             M, CL = ins["Mach_number"][0], ins["CL"][0]
@@ -83,12 +85,27 @@ def run(tier, seed, only=None):
                                             meta={"family": "wave drag is continuous at its onset", "kind": "cont"}))
                         obs.append(oblig.Ob("p%d smooth at onset" % pi, cond=band(eq(e, 0), ne(dM, 0)), assume=adm,
                                             meta={"family": "wave drag starts smoothly (zero slope) at its onset", "kind": "cont"}))
+            # the switch is on: the estimate is not identically zero (some path lies beyond the critical Mach number)
+            live = [p for p in paths if not (p.result["outputs"]["CDw"].ravel()[0] is ZERO or
+                                             (isinstance(p.result["outputs"]["CDw"].ravel()[0], Sym) and p.result["outputs"]["CDw"].ravel()[0].op == "const"))]
+            obs.append(oblig.Ob("option on: a supercritical path exists", lhs=S(len(live) > 0), rhs=ONE, assume=[],
+                                meta={"family": "with the option on the wave-drag estimate is active beyond the critical Mach number", "kind": "on"}))
             f = real_out(sc, ins, "CDw")
 
             def wrp(ob, env, f=f, sc=sc, ins=ins):
                 envf = model.FillEnv(env)
-                v = f(envf)
                 k = ob.meta["kind"]
+                if k == "on":
+                    # thick section, high lift, M = 0.93: far beyond the critical Mach number of the Korn relation
+                    hot = model.FillEnv(dict(envf))
+                    hot.update({"Mach_number[0]": 0.93, "CL[0]": 0.6})
+                    hot.update({"t_over_c[%d]" % e: 0.14 for e in range(8)})
+                    hot.update({"widths[%d]" % e: 1.0 for e in range(8)})
+                    hot.update({"lengths_spanwise[%d]" % e: 1.0 for e in range(8)})
+                    hot.update({"chords[%d]" % e: 1.0 for e in range(9)})
+                    v = f(hot)
+                    return not (v > 0), "option on, M = 0.93, t/c = 0.14, CL = 0.6 (critical Mach about 0.64): CDw = %.9g" % v
+                v = f(envf)
                 if k == "val":
                     ref = float(evalf([ob.lhs], envf)[ob.lhs.nid]) if ob.cond is None else None
                     return (v < 0) or (ob.cond is None and v != 0.0), "CDw = %.9g" % v
@@ -137,7 +154,7 @@ def run(tier, seed, only=None):
     re_, S_ref = var("re[0]"), var("S_ref[0]")
     for k_lam in ([0.0, 1.0, 0.05] if tier == "quick" else [0.0, 1.0, 0.05, 0.5]):
         for ny in nys[:2]:
-            sv = K.surface(2, ny, True, with_viscous=True, k_lam=k_lam)
+            sv = K.surface(2, ny, True, with_viscous=np.True_ if ny == 3 else True, k_lam=k_lam)
             sc = SymComp(A + "viscous_drag", "ViscousDrag", surface=sv, with_viscous=True)
             ins = sc.inputs()
             M = ins["Mach_number"][0]
